@@ -9,7 +9,12 @@ rmdir "$wt"
 git -C /repo worktree add -q --detach "$wt" HEAD || exit 3
 cleanup() { git -C /repo worktree remove --force "$wt" 2>/dev/null; rm -rf "$wt"; }
 trap cleanup EXIT
-if [[ "$patch" == -R:* ]]; then
+if [[ "$patch" == sed:* ]]; then
+  # sed:<file relative to repo>:<sed expression>
+  rest="${patch#sed:}"; file="${rest%%:*}"; expr="${rest#*:}"
+  sed -i "$expr" "$wt/$file"; git -C "$wt" diff --stat | tail -1
+  [ -z "$(git -C "$wt" diff)" ] && { echo "sed changed nothing"; exit 3; }
+elif [[ "$patch" == -R:* ]]; then
   git -C "$wt" show "${patch#-R:}" | git -C "$wt" apply -R || { echo "cannot reverse ${patch#-R:}"; exit 3; }
 else
   git -C "$wt" apply "$patch" || { echo "patch does not apply"; exit 3; }
